@@ -96,9 +96,11 @@ Definition vp_search (d : dist) (t : vpt) (q : Z) (k : nat) : option (list Z) :=
 Definition vp_search_dists (d : dist) (t : vpt) (q : Z) (k : nat) : option (list Z) :=
   option_map (map snd) (vp_search_pairs d t q k).
 
-(* The consumer: tree->search(obj_X[n], K + 1, &indices, &distances); then for m < K
+(* The consumer BEFORE commit f79b9b7 (fixes/F45_tsne_bh_coincident_self_neighbour.patch):
+   tree->search(obj_X[n], K + 1, &indices, &distances); then for m < K
    col_P[row_P[n] + m] = indices[m + 1].index() and distances[m + 1] feed the kernel.
-   Reading indices[m + 1] with fewer than K + 1 results is out of range: None. *)
+   Reading indices[m + 1] with fewer than K + 1 results is out of range: None.
+   (The CURRENT consumer is bh_row_pairs_fixed below.) *)
 Definition bh_row_pairs (d : dist) (t : vpt) (q : Z) (K : nat) : option (list hitem) :=
   match vp_search_pairs d t q (K + 1) with
   | Some l => if Nat.eqb (length l) (K + 1) then Some (tl l) else None
@@ -107,7 +109,7 @@ Definition bh_row_pairs (d : dist) (t : vpt) (q : Z) (K : nat) : option (list hi
 Definition bh_row (d : dist) (t : vpt) (q : Z) (K : nat) : option (list Z) :=
   option_map (map fst) (bh_row_pairs d t q K).
 
-(* fixes/F44_tsne_bh_coincident_self_neighbour.patch: the query is dropped BY INDEX (first result
+(* CURRENT code (fixes/F45_tsne_bh_coincident_self_neighbour.patch, commit f79b9b7): the query is dropped BY INDEX (first result
    whose index() is n); if it is not among the K + 1 results the last (farthest) one is dropped;
    then positions 0..K-1 are read (fewer than K left: out of range, None). *)
 Fixpoint drop_first (q : Z) (l : list hitem) : option (list hitem) :=
